@@ -26,6 +26,7 @@ func runC05(c *Ctx) {
 	c.rule("serial-plus-one", "the stored serial is the serial loaded in the same function (no store in between) plus the constant 1, and the new-config event carries (serial loaded before the install call) + 1 with the config loaded by the same call as oldConfig", 2)
 	c.rule("atomic-pair", "View and ViewVersion perform exactly one atomic load each (directly or through callees) and every result derives from it; the store publishes a freshly allocated (serial, cfg) pair", 3)
 	c.rule("events-in-order", "every send on the Events channel is executed synchronously by the function that stored that version, after the store, and the update path starts no goroutine (a hand-off goroutine would deliver versions out of order)", 2)
+	c.rule("enable-result", "(shared with C09) the config and serial EnableVerification returns belong to one ViewVersion call / one monitor reply", 6)
 	c.rule("events-capacity", "the Events channel is created with a constant capacity of at least 1 (the writer's non-blocking send can park one version)", 1)
 
 	k := loadCore(c)
@@ -156,6 +157,7 @@ func runC05(c *Ctx) {
 
 	// ---- atomic-pair ------------------------------------------------------------------
 	c05Atomic(c, k)
+	c09EnableResult(c, k, k.enableHelper())
 
 	// ---- events-capacity -----------------------------------------------------------------
 	found := false
